@@ -336,6 +336,12 @@ func Spoil(rng *rand.Rand, base *Config, class string) *Config {
 	}
 	si := rng.Intn(len(c.Shapes))
 	s := &c.Shapes[si]
+	// Every spoiled configuration carries a valid default section that differs
+	// from anything the valid generators produce: a handler that installs the
+	// defaults before it has verified the whole request changes the listener
+	// although it answers 400. (The classes below that spoil the default
+	// section itself overwrite it.)
+	c.Default = &Default{Up: 3000017 + int64(rng.Intn(1000)), Down: 2000003 + int64(rng.Intn(1000)), LatencyMs: 7 + int64(rng.Intn(20))}
 	switch class {
 	case "invalid:overlap":
 		s.Throttles = []Throttle{{Start: 0, End: 1000, BW: looseBW}, {Start: 500, End: 1500, BW: looseBW}}
